@@ -8,8 +8,9 @@ the limit). A directory is in scope for C04 iff flags() is non-empty.
   S-c  that descriptor's index range differs from the level header's range for the box, or
        its component count from the plotfile Header's field count
   S-b  walking each file from byte 0 through its boxes in recorded-offset order, each FAB being
-       header line + prod(shape)*ncomp*8 bytes, does not meet the expected box at every step
-       or does not end exactly at end of file
+       header line + prod(shape)*ncomp*8 bytes, does not meet at every step a header line that
+       starts with the FAB keyword at exactly that byte and names the expected box, or does not
+       end exactly at end of file
   S-e  (box-coordinate validation) a physical bound differs from lo + index*dx by > 1/4 cell
 """
 import os, re
@@ -80,8 +81,11 @@ def lenient_cell_h(cpath, nd):
     return idx, fod
 
 
-def fab_line(fpath, off):
-    """the descriptor (lo, hi, ncomp, header length) readable at (file, offset) or None"""
+def fab_line(fpath, off, at_start=False):
+    """the descriptor (lo, hi, ncomp, header length) readable at (file, offset) or None.
+    at_start: the FAB header must *begin* at that byte (sequential walk of a file: a FAB is a
+    header line + its payload, so data inserted or removed before it shifts the 'FAB' keyword
+    even when the tail of the line still parses)"""
     size = os.path.getsize(fpath)
     if off < 0 or off >= size:
         return None
@@ -89,6 +93,8 @@ def fab_line(fpath, off):
         f.seek(off)
         line = f.readline(1 << 20)
     if not line.endswith(b"\n") or any(c >= 0x80 for c in line):
+        return None
+    if at_start and not line.startswith(b"FAB "):
         return None
     m = DESC.search(line)
     if not m:
@@ -147,9 +153,9 @@ def flags(path, limit=None, coords=False):
             lst.sort()
             bad = None
             for off, bi in lst:
-                d = fab_line(fp, pos)
+                d = fab_line(fp, pos, at_start=True)
                 if d is None:
-                    bad = f"no FAB header at byte {pos} (box {bi} expected)"
+                    bad = f"no FAB header starts at byte {pos} (box {bi} expected)"
                     break
                 lo, hi = idx[bi]
                 if d[0] != lo or d[1] != hi:
